@@ -130,6 +130,12 @@ def spellings(meta):
             first = quote(segs[0], safe="")
             out.append(("/" + "".join(f"%{b:02X}" for b in segs[0].encode()) + enc[len(first) + 1:], "encoded-segment", loc))
             out.append((enc + "?a=b&c=/app/public/", "query", loc))
+            out.append(("/%ff/.." + enc, "bad-escape-detour", loc))
+            out.append(("/%80%80/.." + enc, "bad-escape-detour", loc))
+            if len(segs) >= 2:
+                parent2 = "/" + "/".join(quote(x, safe="") for x in segs[:-1])
+                out.append((parent2 + "/%c3%28/../" + quote(segs[-1], safe="") + ("/" if is_dir else ""), "bad-escape-inside", loc))
+                out.append((parent2 + "/%fe%ff/../" + quote(segs[-1], safe="") + ("/" if is_dir else ""), "bad-escape-inside", loc))
             if len(segs) >= 2:
                 out.append(("/" + "%2F".join(quote(s, safe="") for s in segs) + ("/" if is_dir else ""), "encoded-slash", loc))
                 parent = "/" + "/".join(quote(s, safe="") for s in segs[:-1])
